@@ -305,10 +305,22 @@ def _code(ex):
     return [1, exn_code(ex)]
 
 
-def obs_row(row, names, paths, counters):
+def obs_row(row, names, paths, counters, shared=None):
     nav0 = row.nav
     inst = row.instance
     end = nav0.location.end
+    if shared is not None:
+        # the same record located through ONE LocationMaker that serves every record of the file (the public sequence
+        # maker = LocationMaker(unpacker, schema); maker.ndnav(rec1); maker.ndnav(rec2) ...): when it places the record's end
+        # elsewhere than the row's own navigator does, that end is the one reported
+        try:
+            end2 = shared.ndnav(inst).location.end
+        except BaseException as ex:
+            if isinstance(ex, (KeyboardInterrupt, SystemExit, MemoryError)):
+                raise
+            end2 = -1
+        if end2 != end:
+            end = end2
     probes = []
     for p in paths:
         try:
@@ -377,10 +389,12 @@ def observe(ctx, c):
                 return head + [enc(on_disk), schema_obs, _code(ex)]
             rows, ending = [], [0]
             cap = len(recs) + 4
+            from stingray.schema_instance import LocationMaker
+            shared_maker = LocationMaker(wb.unpacker, schema)
             try:
                 for row in sheet.rows():
                     j = len(rows)
-                    rows.append(obs_row(row, names, per_row[j] if j < len(per_row) else [[]], counters))
+                    rows.append(obs_row(row, names, per_row[j] if j < len(per_row) else [[]], counters, shared_maker))
                     if len(rows) >= cap:
                         ending = [2]
                         break
